@@ -512,6 +512,29 @@ func main() {
 			die("Exec literal not found")
 		}
 		w("Definition checksumSQL : list Z := %s. (* %q *)", bstr(sql), sql)
+		// what prepareForReplication does when that Exec fails: the kinds of the statements of the `err != nil` block
+		// ("return-err" for a return of something other than nil)
+		var failKinds []string
+		ast.Inspect(fd, func(n ast.Node) bool {
+			is, ok := n.(*ast.IfStmt)
+			if !ok || is.Init == nil || !strings.Contains(gp.exprString(is.Init), ".Exec(") {
+				return true
+			}
+			for _, st := range is.Body.List {
+				k := fmt.Sprintf("%T", st)
+				if rs, ok := st.(*ast.ReturnStmt); ok {
+					k = "return-err"
+					if len(rs.Results) == 1 {
+						if id, ok := rs.Results[0].(*ast.Ident); ok && id.Name == "nil" {
+							k = "return-nil"
+						}
+					}
+				}
+				failKinds = append(failKinds, k)
+			}
+			return false
+		})
+		w("Definition prepare_exec_failure_block : list (list Z) := [%s]. (* %s *)", strings.Join(mapStr(failKinds, bstr), "; "), strings.Join(failKinds, " | "))
 		fd = gp.methodDecl("slaveConnection", "startDumpFromBinlogPosition")
 		if fd == nil {
 			die("startDumpFromBinlogPosition not found")
